@@ -44,9 +44,14 @@ def demo(wt, path):
         env = dict(ENV, CARGO_TARGET_DIR=SCRATCH + "/target-demo", SCALE_INFO_REPO=wt)
         rc, out = sh(["bash", path, wt], cwd=wt, env=env)
         return rc == 0, out[-1500:]
-    dst = os.path.join(wt, "test_suite", "tests", "seeded_demo.rs")
+    # keep the file name: demonstrations may depend on it (module_path!() of an integration test is its file stem)
+    stem = os.path.basename(path)[:-3]
+    m = re.search(r'"([a-z0-9_]*demo[a-z0-9_]*)"', open(path).read())
+    if m and m.group(1) != stem:
+        stem = m.group(1)  # the demonstration names its own file (module path) in an assertion
+    dst = os.path.join(wt, "test_suite", "tests", stem + ".rs")
     shutil.copy(path, dst)
-    rc, out = sh("cargo test --offline -p scale-info-test-suite --test seeded_demo 2>&1", cwd=wt)
+    rc, out = sh("cargo test --offline -p scale-info-test-suite --test %s 2>&1" % stem, cwd=wt)
     os.remove(dst)
     return rc == 0, out[-1500:]
 
